@@ -63,57 +63,57 @@ macro_rules! cascade_arm {
     };
 }
 
-/// @harness id=c01_same_file_twice props=C01,C08 unwind=17 mem=6 cap=600
+/// @harness id=c01_same_file_twice props=C01,C08 tier=quick unwind=17 mem=6 cap=600
 /// U defines f twice (symbolic lines): the later line wins.
 cascade_arm!(c01_same_file_twice, [U], [U, U]);
-/// @harness id=c01_root_near_same props=C01,C08 unwind=17 mem=6 cap=600
+/// @harness id=c01_root_near_same props=C01,C08 tier=quick unwind=17 mem=6 cap=600
 /// C0, C1, U all define f (registered root first): same file wins.
 cascade_arm!(c01_root_near_same, [C0, C1, U], [C0, C1, U]);
-/// @harness id=c01_root_then_near props=C01,C08 unwind=17 mem=6 cap=600
+/// @harness id=c01_root_then_near props=C01,C08 tier=quick unwind=17 mem=6 cap=600
 /// C0 registered before C1, both define f, U does not: nearest conftest wins.
 cascade_arm!(c01_root_then_near, [C0, C1, U], [C0, C1]);
-/// @harness id=c01_near_then_root props=C01,C08 unwind=17 mem=6 cap=600
+/// @harness id=c01_near_then_root props=C01,C08 tier=quick unwind=17 mem=6 cap=600
 /// C1 registered before C0, both define f: nearest conftest wins regardless of registration order.
 cascade_arm!(c01_near_then_root, [C1, C0, U], [C1, C0]);
-/// @harness id=c01_sibling_and_root props=C01,C08 unwind=17 mem=6 cap=600
+/// @harness id=c01_sibling_and_root props=C01,C08 tier=quick unwind=17 mem=6 cap=600
 /// sibling conftest S registered first, root C0 second: S is invisible from /a, C0 wins.
 cascade_arm!(c01_sibling_and_root, [S, C0, U], [S, C0]);
-/// @harness id=c01_sibling_only props=C01 unwind=17 mem=6 cap=600
+/// @harness id=c01_sibling_only props=C01 tier=quick unwind=17 mem=6 cap=600
 /// only the sibling conftest defines f: nothing is visible.
 cascade_arm!(c01_sibling_only, [S, U], [S]);
-/// @harness id=c01_other_module_and_unimported props=C01 unwind=17 mem=6 cap=600
+/// @harness id=c01_other_module_and_unimported props=C01 tier=quick unwind=17 mem=6 cap=600
 /// another test module T2 and an un-imported module M define f (no conftest on the path): nothing visible.
 cascade_arm!(c01_other_module_and_unimported, [T2, M, U], [T2, M]);
-/// @harness id=c01_import_vs_sibling props=C01,C08,C12 unwind=17 mem=6 cap=600
+/// @harness id=c01_import_vs_sibling props=C01,C08,C12 tier=quick unwind=17 mem=6 cap=600
 /// S registered first, M second, C1 present and (symbolically) importing M: imported => M's, else none.
 cascade_arm!(c01_import_vs_sibling, [S, M, C1, U], [S, M]);
-/// @harness id=c01_import_m_first props=C01,C08 unwind=17 mem=6 cap=600
+/// @harness id=c01_import_m_first props=C01,C08 tier=quick unwind=17 mem=6 cap=600
 /// M registered before S; C1 (symbolically) imports M.
 cascade_arm!(c01_import_m_first, [M, S, C1, U], [M, S]);
-/// @harness id=c01_plugin_over_third_party props=C01,C08 unwind=21 mem=6 cap=600
+/// @harness id=c01_plugin_over_third_party props=C01,C08 tier=quick unwind=21 mem=6 cap=600
 /// third-party V registered before plugin P: plugin wins.
 cascade_arm!(c01_plugin_over_third_party, [V, P, U], [V, P]);
-/// @harness id=c01_root_over_third_party props=C01 unwind=21 mem=6 cap=600
+/// @harness id=c01_root_over_third_party props=C01 tier=quick unwind=21 mem=6 cap=600
 /// V registered before the root conftest: conftest wins.
 cascade_arm!(c01_root_over_third_party, [V, C0, U], [V, C0]);
-/// @harness id=c01_plugin_tp_sibling props=C01 unwind=21 mem=6 cap=900
+/// @harness id=c01_plugin_tp_sibling props=C01 tier=quick unwind=21 mem=6 cap=900
 /// P, V and the sibling S define f: plugin wins, S never.
 cascade_arm!(c01_plugin_tp_sibling, [S, V, P, U], [S, V, P]);
-/// @harness id=c01_root_imports props=C01 unwind=17 mem=6 cap=600
+/// @harness id=c01_root_imports props=C01 tier=quick unwind=17 mem=6 cap=600
 /// only M defines f; the root conftest (symbolically) imports it via a.m.
 cascade_arm!(c01_root_imports, [M, C0, U], [M]);
-/// @harness id=c01_near_import_over_root_def props=C01,C08 unwind=17 mem=6 cap=900
+/// @harness id=c01_near_import_over_root_def props=C01,C08 tier=quick unwind=17 mem=6 cap=900
 /// C0 defines f (registered first), M defines f, C1 (symbolically) imports M: the nearer conftest's import beats the root's own definition.
 cascade_arm!(c01_near_import_over_root_def, [C0, M, C1, U], [C0, M]);
-/// @harness id=c01_same_over_near props=C01 unwind=17 mem=6 cap=600
+/// @harness id=c01_same_over_near props=C01 tier=quick unwind=17 mem=6 cap=600
 /// U and C1 define f, C1 registered first.
 cascade_arm!(c01_same_over_near, [C1, U], [C1, U]);
 
-/// @harness id=c01_three_levels_root_leaf_mid props=C01,C08 unwind=20 mem=8 cap=900
+/// @harness id=c01_three_levels_root_leaf_mid props=C01,C08 tier=quick unwind=20 mem=8 cap=900
 /// three conftests on one ancestor chain (C0, C1, C2) all define f, registered root, leaf, mid; requested
 /// from the leaf directory: the leaf conftest wins.
 cascade_arm!(c01_three_levels_root_leaf_mid, [C0, C2, C1, U3], [C0, C2, C1]);
-/// @harness id=c01_three_levels_mid_root_leaf props=C01,C08 unwind=20 mem=8 cap=900
+/// @harness id=c01_three_levels_mid_root_leaf props=C01,C08 tier=quick unwind=20 mem=8 cap=900
 /// same three conftests registered mid, root, leaf.
 cascade_arm!(c01_three_levels_mid_root_leaf, [C1, C0, C2, U3], [C1, C0, C2]);
 /// @harness id=c01_three_levels_leaf_root_mid props=C01,C08 tier=thorough unwind=20 mem=8 cap=900
@@ -128,7 +128,7 @@ cascade_arm!(c01_three_levels_mid_leaf_root, [C1, C2, C0, U3], [C1, C2, C0]);
 /// @harness id=c01_three_levels_leaf_mid_root props=C01,C08 tier=thorough unwind=20 mem=8 cap=900
 /// registered leaf, mid, root.
 cascade_arm!(c01_three_levels_leaf_mid_root, [C2, C1, C0, U3], [C2, C1, C0]);
-/// @harness id=c01_two_of_three_levels props=C01 unwind=20 mem=8 cap=900
+/// @harness id=c01_two_of_three_levels props=C01 tier=quick unwind=20 mem=8 cap=900
 /// only the root and the mid conftest define f (leaf conftest exists but does not), requested from the leaf directory.
 cascade_arm!(c01_two_of_three_levels, [C0, C2, C1, U3], [C0, C1]);
 
@@ -182,7 +182,7 @@ macro_rules! usage_arm {
         pub fn $id() { let s: usize = $s; usage_at($line, s, (s as i64 + $dcol) as u32) }
     };
 }
-/// @harness id=c01_use_pytestmark props=C01 unwind=60 mem=8 cap=900 gates=worlds
+/// @harness id=c01_use_pytestmark props=C01 tier=quick unwind=60 mem=8 cap=900 gates=worlds
 /// `pytestmark = pytest.mark.usefixtures("fx1")` (line 2): cursor on the middle character of the name, recorded span symbolic.
 usage_arm!(c01_use_pytestmark, 2, PYTESTMARK_COL, 1);
 /// @harness id=c01_use_pytestmark_before props=C01 tier=thorough unwind=60 mem=8 cap=900 gates=worlds
@@ -192,7 +192,7 @@ usage_arm!(c01_use_pytestmark_before, 2, PYTESTMARK_COL, -1);
 /// `pytestmark = pytest.mark.usefixtures("fx1")` (line 2): cursor on the last character of the name, recorded span symbolic.
 usage_arm!(c01_use_pytestmark_last, 2, PYTESTMARK_COL, 2);
 
-/// @harness id=c01_use_fixture_param props=C01 unwind=60 mem=8 cap=900 gates=worlds
+/// @harness id=c01_use_fixture_param props=C01 tier=quick unwind=60 mem=8 cap=900 gates=worlds
 /// `def g(fx1): return 1` (line 4): fixture parameter: cursor on the middle character of the name, recorded span symbolic.
 usage_arm!(c01_use_fixture_param, 4, 6, 1);
 /// @harness id=c01_use_fixture_param_before props=C01 tier=thorough unwind=60 mem=8 cap=900 gates=worlds
@@ -202,7 +202,7 @@ usage_arm!(c01_use_fixture_param_before, 4, 6, -1);
 /// `def g(fx1): return 1` (line 4): fixture parameter: cursor on the last character of the name, recorded span symbolic.
 usage_arm!(c01_use_fixture_param_last, 4, 6, 2);
 
-/// @harness id=c01_use_usefixtures props=C01 unwind=60 mem=8 cap=900 gates=worlds
+/// @harness id=c01_use_usefixtures props=C01 tier=quick unwind=60 mem=8 cap=900 gates=worlds
 /// `@pytest.mark.usefixtures("fx1")` (line 6): cursor on the middle character of the name, recorded span symbolic.
 usage_arm!(c01_use_usefixtures, 6, USEFIX_COL, 1);
 /// @harness id=c01_use_usefixtures_before props=C01 tier=thorough unwind=60 mem=8 cap=900 gates=worlds
@@ -212,7 +212,7 @@ usage_arm!(c01_use_usefixtures_before, 6, USEFIX_COL, -1);
 /// `@pytest.mark.usefixtures("fx1")` (line 6): cursor on the last character of the name, recorded span symbolic.
 usage_arm!(c01_use_usefixtures_last, 6, USEFIX_COL, 2);
 
-/// @harness id=c01_use_indirect props=C01 unwind=60 mem=8 cap=900 gates=worlds
+/// @harness id=c01_use_indirect props=C01 tier=quick unwind=60 mem=8 cap=900 gates=worlds
 /// `@pytest.mark.parametrize("fx1", [1], indirect=True)` (line 7): cursor on the middle character of the name, recorded span symbolic.
 usage_arm!(c01_use_indirect, 7, USEFIX_COL, 1);
 /// @harness id=c01_use_indirect_before props=C01 tier=thorough unwind=60 mem=8 cap=900 gates=worlds
@@ -222,7 +222,7 @@ usage_arm!(c01_use_indirect_before, 7, USEFIX_COL, -1);
 /// `@pytest.mark.parametrize("fx1", [1], indirect=True)` (line 7): cursor on the last character of the name, recorded span symbolic.
 usage_arm!(c01_use_indirect_last, 7, USEFIX_COL, 2);
 
-/// @harness id=c01_use_test_param props=C01 unwind=60 mem=8 cap=900 gates=worlds
+/// @harness id=c01_use_test_param props=C01 tier=quick unwind=60 mem=8 cap=900 gates=worlds
 /// `def test_x(fx1): pass` (line 8): test parameter: cursor on the middle character of the name, recorded span symbolic.
 usage_arm!(c01_use_test_param, 8, 11, 1);
 /// @harness id=c01_use_test_param_before props=C01 tier=thorough unwind=60 mem=8 cap=900 gates=worlds
